@@ -19,9 +19,12 @@ func init() {
 	})
 	core.Register(&core.Check{
 		ID: "C31", Level: "fault_enumeration",
-		Rule: "same enumeration as C07 (every write kind x {fresh initializing ledger, in-use ledger} x {success, business failure, dry run, injected failure at every store call, injected commit failure}) with the cluster's totally ordered trace on: at every listener call no SQL transaction of the operation may still be open, failed / dry-run / rolled-back writes publish nothing, committed writes publish exactly one event. Distinct = (op kind, ledger state, site, error kind, outcome class); non-trivial = the operation reached a listener call or a commit/rollback decision",
-		Assumptions: []string{seqAssume, "bulk paths (atomic / non-atomic) are enumerated in the C32 check"},
-		Run:  func(r *core.Run) { runFaultEnum(r, "C31") },
+		Rule: "same enumeration as C07 (every write kind x {fresh initializing ledger, in-use ledger} x {success, business failure, dry run, injected failure at every store call, injected commit failure}) with the cluster's totally ordered trace on: at every listener call no SQL transaction of the operation may still be open, failed / dry-run / rolled-back writes publish nothing, committed writes publish exactly one event. Distinct = (op kind, ledger state, site, error kind, outcome class); non-trivial = the operation reached a listener call or a commit/rollback decision. Plus the C32 bulk workload (atomic / non-atomic / parallel bulks with failing elements, on in-use ledgers and as the first write of an initializing ledger) judged by the same trace automaton and event counts",
+		Assumptions: []string{seqAssume},
+		Run: func(r *core.Run) {
+			runFaultEnum(r, "C31")
+			runC32(r, "C31") // bulk paths: atomic / non-atomic, also as first write of an initializing ledger
+		},
 	})
 }
 
@@ -200,6 +203,23 @@ func runFaultEnum(r *core.Run, prop string) {
 				if !plan.Fired {
 					exhaustive = false
 					r.Count("positions_not_reached_again", 1)
+				}
+				// two-fault plans: a retryable fault that sends the operation to its retry path,
+				// followed by a failure of each COMMIT of that run
+				if kind == "deadlock" && plan.Fired {
+					commits := 0
+					for _, e := range ev {
+						if e.Kind == "commit" {
+							commits++
+						}
+					}
+					for k := 1; k <= commits; k++ {
+						p2 := &sim.FaultPlan{N: pos, Kind: kind, CommitN: k}
+						m2, out2, ev2 := runFaultOne(sc, p2, true)
+						p2.Kind = "deadlock+commit-failure"
+						report(m2, p2, out2, ev2)
+						r.Count("two_fault_plans", 1)
+					}
 				}
 			}
 		}
